@@ -3,6 +3,7 @@ package main
 import (
 	"fmt"
 	"go/ast"
+	"go/parser"
 	"go/token"
 	"path/filepath"
 	"strconv"
@@ -12,7 +13,8 @@ import (
 // Gen/ProxyRoutes.v (C12): the hijack subrouter of api/ipfsproxy/ipfsproxy.go:New (methods, prefix, one
 // entry per route: name, path template, handler, wrapped in slashHandler or not), the catch-all, and per
 // hijack handler the RPC calls it contains (in source order) and, for every ipfsErrorResponder call,
-// whether the statement that follows it is a return.
+// whether the statement that follows it is a return. The registrations are read in their chained form (one statement per
+// route) and in their table-driven form (a loop over a literal table of routes), see prWalk; proxyroutes_selftest.go.
 func init() { register("ProxyRoutes", genProxyRoutes) }
 
 var httpMethodConst = map[string]string{"MethodGet": "GET", "MethodPost": "POST", "MethodPut": "PUT", "MethodDelete": "DELETE",
@@ -200,30 +202,458 @@ func coqPairList(ps [][2]string) string {
 }
 
 func genProxyRoutes(repo string) (string, error) {
-	_, f, err := parseFile(filepath.Join(repo, "api", "ipfsproxy", "ipfsproxy.go"))
+	if err := prSelfTest(); err != nil {
+		return "", fmt.Errorf("self-test of the proxy route translator: %v", err)
+	}
+	dir := filepath.Join(repo, "api", "ipfsproxy")
+	fset, f, err := parseFile(filepath.Join(dir, "ipfsproxy.go"))
 	if err != nil {
 		return "", err
 	}
+	// the other files of the package are read only when a route table names its element type
+	siblings := func() []*ast.File {
+		var out []*ast.File
+		names, _ := filepath.Glob(filepath.Join(dir, "*.go"))
+		for _, n := range names {
+			if strings.HasSuffix(n, "_test.go") || filepath.Base(n) == "ipfsproxy.go" {
+				continue
+			}
+			if sf, err := parser.ParseFile(fset, n, nil, 0); err == nil {
+				out = append(out, sf)
+			}
+		}
+		return out
+	}
+	return prTable(fset, f, siblings)
+}
+
+type prRoute struct {
+	name, tpl, handler string
+	slash              bool
+}
+
+// prWalk reads the route registrations of New. Two shapes of a hijack registration are followed:
+//
+//	hijackSubrouter.Path("/x").HandlerFunc(h).Name("N")                                  (one statement per route)
+//	for _, hr := range <table> { hijackSubrouter.Path(hr.path).HandlerFunc(hr.handler).Name(hr.name) }
+//
+// where <table> is a composite literal of struct literals, or a local variable of New assigned exactly once from such a
+// literal and used nowhere else. Everything else that touches the router or the subrouter is refused with file:line.
+type prWalk struct {
+	fset     *token.FileSet
+	f        *ast.File
+	siblings func() []*ast.File
+	newFn    *ast.FuncDecl
+	err      error
+
+	routerName, subName string
+	methods             []string
+	prefix              string
+	routes              []prRoute
+	catchAll            [][2]string
+	consumed            map[ast.Stmt]bool
+	tableUses           map[string]map[*ast.Ident]bool // table variable -> its identifiers the walk has accounted for
+}
+
+func (w *prWalk) at(n ast.Node) string {
+	p := w.fset.Position(n.Pos())
+	return fmt.Sprintf("%s:%d", p.Filename, p.Line)
+}
+
+func (w *prWalk) fail(n ast.Node, format string, a ...interface{}) {
+	if w.err == nil {
+		w.err = fmt.Errorf(w.at(n)+": "+format, a...)
+	}
+}
+
+// prIdents calls visit for every identifier of n that is used as a name on its own (not the field / method name of a
+// selector, not the key of a keyed struct literal field).
+func prIdents(n ast.Node, visit func(*ast.Ident)) {
+	if n == nil {
+		return
+	}
+	ast.Inspect(n, func(m ast.Node) bool {
+		switch v := m.(type) {
+		case *ast.SelectorExpr:
+			prIdents(v.X, visit)
+			return false
+		case *ast.Ident:
+			visit(v)
+		}
+		return true
+	})
+}
+
+func prMentions(n ast.Node, name string) *ast.Ident {
+	var found *ast.Ident
+	if name == "" {
+		return nil
+	}
+	prIdents(n, func(id *ast.Ident) {
+		if found == nil && id.Name == name {
+			found = id
+		}
+	})
+	return found
+}
+
+// prCallsOn: a method call <name>.M(...) somewhere in n
+func prCallsOn(n ast.Node, name string) ast.Node {
+	var found ast.Node
+	if name == "" || n == nil {
+		return nil
+	}
+	ast.Inspect(n, func(m ast.Node) bool {
+		if ce, ok := m.(*ast.CallExpr); ok && found == nil {
+			if se, ok := ce.Fun.(*ast.SelectorExpr); ok {
+				if id, ok := se.X.(*ast.Ident); ok && id.Name == name {
+					found = ce
+				}
+			}
+		}
+		return found == nil
+	})
+	return found
+}
+
+// prRegChain: the calls of one registration on the hijack subrouter, Path, HandlerFunc and Name, each exactly once with one
+// argument (their order on a mux.Route is immaterial: a matcher, the handler, the name). Anything else (Methods, Queries,
+// Host, Handler, Subrouter, ...) is not understood.
+func prRegChain(chain []chainCall) (path, handler, name ast.Expr, problem string) {
+	for _, c := range chain {
+		var slot *ast.Expr
+		switch c.name {
+		case "Path":
+			slot = &path
+		case "HandlerFunc":
+			slot = &handler
+		case "Name":
+			slot = &name
+		default:
+			return nil, nil, nil, "a ." + c.name + "(..) call in a route registration is not understood"
+		}
+		if *slot != nil {
+			return nil, nil, nil, "." + c.name + "(..) twice in one route registration"
+		}
+		if len(c.args) != 1 {
+			return nil, nil, nil, "." + c.name + "(..) does not have exactly one argument"
+		}
+		*slot = c.args[0]
+	}
+	if path == nil || handler == nil || name == nil {
+		return nil, nil, nil, "a route registration is Path, HandlerFunc and Name, one of them is missing"
+	}
+	return path, handler, name, ""
+}
+
+// prHandlerExpr: proxy.h or slashHandler(proxy.h)
+func prHandlerExpr(h ast.Expr) (handler string, slash bool, problem string) {
+	if ce, ok := h.(*ast.CallExpr); ok {
+		id, ok := ce.Fun.(*ast.Ident)
+		if !ok || id.Name != "slashHandler" || len(ce.Args) != 1 {
+			return "", false, "unrecognised handler wrapper"
+		}
+		slash = true
+		h = ce.Args[0]
+	}
+	se, ok := h.(*ast.SelectorExpr)
+	if !ok {
+		return "", false, "handler is not a method value"
+	}
+	return se.Sel.Name, slash, ""
+}
+
+func (w *prWalk) addRoute(at ast.Node, pathE, handlerE, nameE ast.Expr) {
+	tpl, ok1 := strLit(pathE)
+	name, ok2 := strLit(nameE)
+	if !ok1 || !ok2 {
+		w.fail(at, "route path or name is not a literal")
+		return
+	}
+	h, slash, problem := prHandlerExpr(handlerE)
+	if problem != "" {
+		w.fail(handlerE, "route %s: %s", name, problem)
+		return
+	}
+	w.routes = append(w.routes, prRoute{name, tpl, h, slash})
+}
+
+// structFields resolves the element type of a route table to its ordered field names.
+func (w *prWalk) structFields(elt ast.Expr) ([]string, bool) {
+	var st *ast.StructType
+	switch t := elt.(type) {
+	case *ast.StructType:
+		st = t
+	case *ast.Ident:
+		var specs []*ast.TypeSpec
+		collect := func(d ast.Decl) {
+			if gd, ok := d.(*ast.GenDecl); ok && gd.Tok == token.TYPE {
+				for _, sp := range gd.Specs {
+					if ts, ok := sp.(*ast.TypeSpec); ok && ts.Name.Name == t.Name {
+						specs = append(specs, ts)
+					}
+				}
+			}
+		}
+		ast.Inspect(w.newFn.Body, func(n ast.Node) bool { // a type declared inside New
+			if ds, ok := n.(*ast.DeclStmt); ok {
+				collect(ds.Decl)
+			}
+			return true
+		})
+		if len(specs) == 0 {
+			for _, d := range w.f.Decls {
+				collect(d)
+			}
+		}
+		if len(specs) == 0 && w.siblings != nil {
+			for _, sf := range w.siblings() {
+				for _, d := range sf.Decls {
+					collect(d)
+				}
+			}
+		}
+		if len(specs) != 1 {
+			w.fail(elt, "route table element type %s: %d declarations found", t.Name, len(specs))
+			return nil, false
+		}
+		s, ok := specs[0].Type.(*ast.StructType)
+		if !ok || specs[0].Assign.IsValid() {
+			w.fail(specs[0], "route table element type %s is not declared as a struct", t.Name)
+			return nil, false
+		}
+		st = s
+	default:
+		w.fail(elt, "route table element type is neither a struct type nor the name of one")
+		return nil, false
+	}
+	var fields []string
+	for _, fl := range st.Fields.List {
+		if len(fl.Names) == 0 {
+			w.fail(fl, "route table element type has an embedded field")
+			return nil, false
+		}
+		for _, n := range fl.Names {
+			fields = append(fields, n.Name)
+		}
+	}
+	return fields, true
+}
+
+// tableLiteral finds the composite literal a range expression stands for.
+func (w *prWalk) tableLiteral(x ast.Expr) (*ast.CompositeLit, bool) {
+	switch v := x.(type) {
+	case *ast.CompositeLit:
+		return v, true
+	case *ast.Ident:
+		// defined exactly once, by a top-level statement of New: v := <literal> or var v [T] = <literal>
+		var defs []ast.Stmt
+		var defIdent *ast.Ident
+		var rhs ast.Expr
+		for _, st := range w.newFn.Body.List {
+			switch s := st.(type) {
+			case *ast.AssignStmt:
+				for i, l := range s.Lhs {
+					if id, ok := l.(*ast.Ident); ok && id.Name == v.Name && s.Tok == token.DEFINE {
+						defs = append(defs, st)
+						defIdent = id
+						rhs = nil
+						if len(s.Lhs) == len(s.Rhs) {
+							rhs = s.Rhs[i]
+						}
+					}
+				}
+			case *ast.DeclStmt:
+				if gd, ok := s.Decl.(*ast.GenDecl); ok && gd.Tok == token.VAR {
+					for _, sp := range gd.Specs {
+						vs := sp.(*ast.ValueSpec)
+						for i, id := range vs.Names {
+							if id.Name == v.Name {
+								defs = append(defs, st)
+								defIdent = id
+								rhs = nil
+								if len(vs.Values) == len(vs.Names) {
+									rhs = vs.Values[i]
+								}
+							}
+						}
+					}
+				}
+			}
+		}
+		if len(defs) != 1 {
+			w.fail(x, "the loop ranges over %s, which is not a local variable of New defined once at the top level of its body (%d definitions)", v.Name, len(defs))
+			return nil, false
+		}
+		lit, ok := rhs.(*ast.CompositeLit)
+		if !ok {
+			w.fail(defs[0], "route table %s is not assigned from a composite literal (built by a function, or filled later?)", v.Name)
+			return nil, false
+		}
+		if defs[0].Pos() > x.Pos() {
+			w.fail(x, "route table %s is defined after the loop", v.Name)
+			return nil, false
+		}
+		if w.tableUses[v.Name] == nil {
+			w.tableUses[v.Name] = map[*ast.Ident]bool{}
+		}
+		w.tableUses[v.Name][defIdent] = true
+		w.tableUses[v.Name][v] = true
+		w.consumed[defs[0]] = true
+		return lit, true
+	}
+	w.fail(x, "the loop ranges over something that is neither a composite literal nor a local variable")
+	return nil, false
+}
+
+// tableRows: the struct literals of a route table as field name -> value expression, in literal order.
+func (w *prWalk) tableRows(lit *ast.CompositeLit) ([]map[string]ast.Expr, bool) {
+	at, ok := lit.Type.(*ast.ArrayType)
+	if ok && at.Len != nil {
+		_, ok = at.Len.(*ast.Ellipsis)
+	}
+	if !ok {
+		w.fail(lit, "route table is not a slice (or [...] array) literal")
+		return nil, false
+	}
+	fields, ok := w.structFields(at.Elt)
+	if !ok {
+		return nil, false
+	}
+	isField := map[string]bool{}
+	for _, fn := range fields {
+		isField[fn] = true
+	}
+	var rows []map[string]ast.Expr
+	for _, el := range lit.Elts {
+		cl, ok := el.(*ast.CompositeLit)
+		if !ok {
+			w.fail(el, "route table element is not a struct literal (indexed, a variable or a call?)")
+			return nil, false
+		}
+		if cl.Type != nil {
+			a, ok1 := cl.Type.(*ast.Ident)
+			b, ok2 := at.Elt.(*ast.Ident)
+			if !ok1 || !ok2 || a.Name != b.Name {
+				w.fail(cl, "route table element carries a type other than the element type")
+				return nil, false
+			}
+		}
+		row := map[string]ast.Expr{}
+		keyed := 0
+		for _, e := range cl.Elts {
+			if _, ok := e.(*ast.KeyValueExpr); ok {
+				keyed++
+			}
+		}
+		switch {
+		case keyed == 0:
+			if len(cl.Elts) != len(fields) {
+				w.fail(cl, "positional route table row has %d values for %d fields", len(cl.Elts), len(fields))
+				return nil, false
+			}
+			for i, e := range cl.Elts {
+				row[fields[i]] = e
+			}
+		case keyed == len(cl.Elts):
+			for _, e := range cl.Elts {
+				kv := e.(*ast.KeyValueExpr)
+				k, ok := kv.Key.(*ast.Ident)
+				if !ok || !isField[k.Name] || row[k.Name] != nil {
+					w.fail(kv, "route table row: key is not a field of the element type, or is given twice")
+					return nil, false
+				}
+				row[k.Name] = kv.Value
+			}
+		default:
+			w.fail(cl, "route table row mixes keyed and positional values")
+			return nil, false
+		}
+		// every value, used by the loop or not, is a string literal or a handler expression: nothing is computed
+		for fn, e := range row {
+			if _, ok := strLit(e); ok {
+				continue
+			}
+			if _, _, problem := prHandlerExpr(e); problem != "" {
+				w.fail(e, "route table row: value of field %s is neither a string literal nor proxy.h / slashHandler(proxy.h) (%s)", fn, problem)
+				return nil, false
+			}
+		}
+		rows = append(rows, row)
+	}
+	return rows, true
+}
+
+// rangeLoop: for _, x := range <table> { <sub>.Path(x.f1).HandlerFunc(x.f2).Name(x.f3) }
+func (w *prWalk) rangeLoop(s *ast.RangeStmt) {
+	if w.subName == "" {
+		w.fail(s, "a loop uses the router before the hijack subrouter exists")
+		return
+	}
+	key, _ := s.Key.(*ast.Ident)
+	val, _ := s.Value.(*ast.Ident)
+	if s.Tok != token.DEFINE || key == nil || key.Name != "_" || val == nil || val.Name == "_" {
+		w.fail(s, "a loop touching the router is not of the form `for _, x := range <table>`")
+		return
+	}
+	if len(s.Body.List) != 1 {
+		w.fail(s.Body, "the body of a route registration loop is not exactly one registration (%d statements)", len(s.Body.List))
+		return
+	}
+	es, ok := s.Body.List[0].(*ast.ExprStmt)
+	if !ok {
+		w.fail(s.Body.List[0], "the body of a route registration loop is not a registration (a condition, continue, assignment, ...)")
+		return
+	}
+	root, chain, ok := flattenChain(es.X)
+	if !ok || root != w.subName {
+		w.fail(es, "the body of a loop touching the router does not register on the hijack subrouter %s", w.subName)
+		return
+	}
+	pathE, handlerE, nameE, problem := prRegChain(chain)
+	if problem != "" {
+		w.fail(es, "unrecognised route registration on %s: %s", w.subName, problem)
+		return
+	}
+	field := func(e ast.Expr, what string) string {
+		se, ok := e.(*ast.SelectorExpr)
+		if ok {
+			if id, ok := se.X.(*ast.Ident); ok && id.Name == val.Name {
+				return se.Sel.Name
+			}
+		}
+		w.fail(e, "%s of a looped registration is not a field of the loop variable %s", what, val.Name)
+		return ""
+	}
+	pf, hf, nf := field(pathE, "the path"), field(handlerE, "the handler"), field(nameE, "the name")
+	if w.err != nil {
+		return
+	}
+	lit, ok := w.tableLiteral(s.X)
+	if !ok {
+		return
+	}
+	rows, ok := w.tableRows(lit)
+	if !ok {
+		return
+	}
+	for i, row := range rows {
+		p, h, n := row[pf], row[hf], row[nf]
+		if p == nil || h == nil || n == nil {
+			w.fail(lit.Elts[i], "route table row leaves a field the loop registers (%s, %s, %s) at its zero value, or the element type has no such field", pf, hf, nf)
+			return
+		}
+		w.addRoute(lit.Elts[i], p, h, n)
+	}
+	w.consumed[s] = true
+}
+
+func prTable(fset *token.FileSet, f *ast.File, siblings func() []*ast.File) (string, error) {
 	newFn := findFunc(f, "", "New")
 	if newFn == nil {
 		return "", fmt.Errorf("func New not found in ipfsproxy.go")
 	}
-	var methods []string
-	prefix := ""
-	subName := ""
-	routerName := ""
-	type route struct {
-		name, tpl, handler string
-		slash             bool
-	}
-	var routes []route
-	var catchAll [][2]string
-	var walkErr error
-	fail := func(format string, a ...interface{}) {
-		if walkErr == nil {
-			walkErr = fmt.Errorf(format, a...)
-		}
-	}
+	w := &prWalk{fset: fset, f: f, siblings: siblings, newFn: newFn, consumed: map[ast.Stmt]bool{}, tableUses: map[string]map[*ast.Ident]bool{}}
 	for _, st := range newFn.Body.List {
 		switch s := st.(type) {
 		case *ast.AssignStmt:
@@ -237,104 +667,113 @@ func genProxyRoutes(repo string) (string, error) {
 			// router := mux.NewRouter()
 			if ce, ok := s.Rhs[0].(*ast.CallExpr); ok {
 				if se, ok := ce.Fun.(*ast.SelectorExpr); ok && se.Sel.Name == "NewRouter" {
-					if routerName != "" {
-						fail("more than one mux.NewRouter()")
+					if w.routerName != "" {
+						w.fail(s, "more than one mux.NewRouter()")
 					}
 					if len(ce.Args) != 0 {
-						fail("NewRouter with arguments")
+						w.fail(s, "NewRouter with arguments")
 					}
-					routerName = lhs.Name
+					w.routerName = lhs.Name
+					w.consumed[st] = true
 					continue
 				}
 			}
 			root, chain, ok := flattenChain(s.Rhs[0])
-			if !ok || routerName == "" || root != routerName || len(chain) == 0 {
+			if !ok || w.routerName == "" || root != w.routerName || len(chain) == 0 {
 				continue // (a plain alias such as `handler = router` registers nothing)
 			}
 			// hijackSubrouter := router.Methods(...).PathPrefix("...").Subrouter()
-			if len(chain) != 3 || chain[0].name != "Methods" || chain[1].name != "PathPrefix" || chain[2].name != "Subrouter" || subName != "" {
-				fail("unrecognised router chain assigned to %s", lhs.Name)
+			if len(chain) != 3 || chain[0].name != "Methods" || chain[1].name != "PathPrefix" || chain[2].name != "Subrouter" || w.subName != "" {
+				w.fail(s, "unrecognised router chain assigned to %s", lhs.Name)
 				continue
 			}
-			subName = lhs.Name
+			w.subName = lhs.Name
+			w.consumed[st] = true
 			for _, a := range chain[0].args {
 				se, ok := a.(*ast.SelectorExpr)
 				if !ok || httpMethodConst[se.Sel.Name] == "" {
 					if s, ok := strLit(a); ok {
-						methods = append(methods, strings.ToUpper(s)) // mux upper-cases the configured methods
+						w.methods = append(w.methods, strings.ToUpper(s)) // mux upper-cases the configured methods
 						continue
 					}
-					fail("unrecognised method expression in Methods(...)")
+					w.fail(a, "unrecognised method expression in Methods(...)")
 					continue
 				}
-				methods = append(methods, httpMethodConst[se.Sel.Name])
+				w.methods = append(w.methods, httpMethodConst[se.Sel.Name])
 			}
 			if len(chain[1].args) != 1 {
-				fail("PathPrefix arity")
+				w.fail(s, "PathPrefix arity")
 				continue
 			}
 			p, ok := strLit(chain[1].args[0])
 			if !ok {
-				fail("PathPrefix argument is not a literal")
+				w.fail(chain[1].args[0], "PathPrefix argument is not a literal")
 			}
-			prefix = p
+			w.prefix = p
 		case *ast.ExprStmt:
 			root, chain, ok := flattenChain(s.X)
-			if !ok || root == "" || (root != subName && root != routerName) || routerName == "" {
+			if !ok || root == "" || (root != w.subName && root != w.routerName) || w.routerName == "" {
 				continue
 			}
-			if root == subName {
+			if root == w.subName {
 				// hijackSubrouter.Path("/x").HandlerFunc(h).Name("N")
-				if len(chain) != 3 || chain[0].name != "Path" || chain[1].name != "HandlerFunc" || chain[2].name != "Name" ||
-					len(chain[0].args) != 1 || len(chain[1].args) != 1 || len(chain[2].args) != 1 {
-					fail("unrecognised route registration on %s", subName)
+				pathE, handlerE, nameE, problem := prRegChain(chain)
+				if problem != "" {
+					w.fail(s, "unrecognised route registration on %s: %s", w.subName, problem)
 					continue
 				}
-				tpl, ok1 := strLit(chain[0].args[0])
-				name, ok2 := strLit(chain[2].args[0])
-				if !ok1 || !ok2 {
-					fail("route path or name is not a literal")
-					continue
-				}
-				h := chain[1].args[0]
-				slash := false
-				if ce, ok := h.(*ast.CallExpr); ok {
-					id, ok := ce.Fun.(*ast.Ident)
-					if !ok || id.Name != "slashHandler" || len(ce.Args) != 1 {
-						fail("route %s: unrecognised handler wrapper", name)
-						continue
-					}
-					slash = true
-					h = ce.Args[0]
-				}
-				se, ok := h.(*ast.SelectorExpr)
-				if !ok {
-					fail("route %s: handler is not a method value", name)
-					continue
-				}
-				routes = append(routes, route{name, tpl, se.Sel.Name, slash})
+				w.addRoute(s, pathE, handlerE, nameE)
+				w.consumed[st] = true
 			} else {
 				// router.PathPrefix("/").Handler(reverseProxy)
 				if len(chain) != 2 || chain[0].name != "PathPrefix" || chain[1].name != "Handler" || len(chain[0].args) != 1 || len(chain[1].args) != 1 {
-					fail("unrecognised route registration on %s", routerName)
+					w.fail(s, "unrecognised route registration on %s", w.routerName)
 					continue
 				}
 				p, ok1 := strLit(chain[0].args[0])
 				id, ok2 := chain[1].args[0].(*ast.Ident)
 				if !ok1 || !ok2 {
-					fail("catch-all is not PathPrefix(literal).Handler(ident)")
+					w.fail(s, "catch-all is not PathPrefix(literal).Handler(ident)")
 					continue
 				}
-				catchAll = append(catchAll, [2]string{p, id.Name})
+				w.catchAll = append(w.catchAll, [2]string{p, id.Name})
+				w.consumed[st] = true
 			}
+		case *ast.RangeStmt:
+			if prMentions(s, w.subName) == nil && prCallsOn(s, w.routerName) == nil {
+				continue // (the listener loop: nothing to do with the router)
+			}
+			w.rangeLoop(s)
 		}
 	}
-	if walkErr != nil {
-		return "", walkErr
+	// nothing else may touch the subrouter or call the router: a registration in a condition, in another kind of loop, in
+	// a closure or a helper would be missing from the table
+	for _, st := range newFn.Body.List {
+		if w.consumed[st] {
+			continue
+		}
+		if id := prMentions(st, w.subName); id != nil {
+			w.fail(id, "the hijack subrouter %s is used in a statement the translator does not follow", w.subName)
+		}
+		if ce := prCallsOn(st, w.routerName); ce != nil {
+			w.fail(ce, "a call on the router %s in a statement the translator does not follow", w.routerName)
+		}
 	}
-	if routerName == "" || subName == "" || len(routes) == 0 {
-		return "", fmt.Errorf("router / hijack subrouter / routes not found in New")
+	// a route table is only defined and ranged over: never appended to, indexed, assigned, passed on
+	for name, allowed := range w.tableUses {
+		prIdents(newFn.Body, func(id *ast.Ident) {
+			if id.Name == name && !allowed[id] {
+				w.fail(id, "route table %s is used outside its definition and its registration loop (appended to, modified or passed on?)", name)
+			}
+		})
 	}
+	if w.err != nil {
+		return "", w.err
+	}
+	if w.routerName == "" || w.subName == "" || len(w.routes) == 0 {
+		return "", fmt.Errorf("%s: router / hijack subrouter / routes not found in New", w.at(newFn))
+	}
+	methods, prefix, routes, catchAll := w.methods, w.prefix, w.routes, w.catchAll
 	// handlers
 	seen := map[string]bool{}
 	var hnames []string
